@@ -2,7 +2,7 @@
 the serialisers and the process are exercised by running the real binary)."""
 import base64, json, os, random, re, socket, struct, subprocess, threading, time
 import vlib, netcases
-from props import netprops, cliplan
+from props import netprops, cliplan, clibson
 from props.c15 import tok as val_tokens
 
 LEVEL = "other"
@@ -12,23 +12,29 @@ RULE = ("(1) PLAN: the real gamedig_cli binary built with the verification hook 
         "typed flag at its boundary values, every presence pattern of the two flattened flag groups, every mode x format — go to the binary and to the model "
         "of main (driver entry `cli-plan`, Proto/CliPlan.lean) and must give the same plan or the same way out; oracle on the binary alone: exit rules of the "
         "property and the hand-over of every flag value. (2) MIRRORS: the model's IP-literal parser, hex / base64 codecs, JSON printer (compact, pretty) and JSON "
-        "reader against std / hex / base64 / serde_json in the harness on generated and damaged inputs. (3) WRITERS: the real binary's output_result_* on values "
+        "reader against std / hex / base64 / serde_json in the harness on generated and damaged inputs; the model's BSON serialiser and reader "
+        "(`bson-enc` / `bson-dec`) against bson::to_vec / bson::RawDocument on every Rust integer type at its limits, u64 above i64::MAX, every kind of f64, empty / long / "
+        "non-ASCII strings, odd keys and keys with NUL, nesting to depth 120, arrays of 0-2500 items, non-documents at the top, and on documents of an independent writer, "
+        "whole and damaged. (3) WRITERS: the real binary's output_result_* on values "
         "of every shape (print hook): JSON / pretty JSON / XML byte for byte = the model's, BSON-hex / BSON-base64 decoded by the model's decoders = Python's, the "
-        "BSON inside = the value. (4) END TO END: the shipped binary (no hook) against in-process loopback UDP servers replaying SPEC-generated "
+        "BSON inside = the model's serialiser on the value byte for byte, and read by the model's BSON reader and by a Python walker = the value (maps whose only key "
+        "is an extended-JSON marker included). (4) END TO END: the shipped binary (no hook) against in-process loopback UDP servers replaying SPEC-generated "
         "exchanges of Valve games (names, maps, rule keys and values with markup, control and non-ASCII characters; rule keys that are not "
         "XML names are injected) x 2 output modes x 6 formats; stdout must be one well-formed document: JSON read by Python AND by the model's reader and compared "
         "with the library's own response (obtained in-process through the harness on the same exchange), reprinted by the model's printer byte for byte; generic "
         "mode = the C15 accessor tables evaluated by the model on the protocol-specific value, byte for byte; XML compared byte for byte with the Lean "
-        "model's rendering of that JSON value (and parsed), BSON (hex / base64) decoded by the model's decoders and by an independent walker and compared; exit status 0. "
+        "model's rendering of that JSON value (and parsed), BSON (hex / base64) decoded by the model's decoders, read by the model's BSON reader and by an independent walker and compared with the "
+        "library's response and with the JSON document of the same invocation; exit status 0. "
         "Invalid invocations of each kind (unknown game, unresolvable host, silent server, bad flag values) must exit non-zero with a message "
         "and no panic. Distinct = distinct outputs.")
 ASSUMPTIONS = ["clap's tokenisation of argv, the system resolver, serde's derive output, serde_json / quick-xml / bson succeeding or failing, and the Debug text are parameters "
                "of the model (its theorems hold for all their behaviours); the per-value parsers of the flags, std's IpAddr parser and Display, hex, base64 and "
                "serde_json's two formatters are mirrored in Lean and compared with the real ones on every run",
                "the Debug format is only checked for being printed (it has no grammar to validate)",
-               "BSON's binary layout (bson::to_vec) is read back by an independent Python walker, not modelled"]
-TRUSTED = ["Lean model of main (Proto/CliPlan.lean), of the JSON documents and their reader (Proto/CliJson.lean), of hex / base64 (Proto/CliCodec.lean) and of the JSON→XML "
-           "converter (Proto/Cli.lean); theorems in Props/C19.lean, C19_cli.lean, C14_cli.lean, C18_cli.lean; tied to the binary by the plan hook, the print hook and "
+               "BSON's binary layout (bson::to_vec) is modelled (Proto/CliBson.lean) and compared with the crate on every run; serde handing each field over in its "
+               "Rust type (derive output) stays a parameter"]
+TRUSTED = ["Lean model of main (Proto/CliPlan.lean), of the JSON documents and their reader (Proto/CliJson.lean), of hex / base64 (Proto/CliCodec.lean), of BSON's layout (Proto/CliBson.lean) and of the JSON→XML "
+           "converter (Proto/Cli.lean); theorems in Props/C19.lean, C19_cli.lean, C19_bson.lean, C14_cli.lean, C18_cli.lean; tied to the binary by the plan hook, the print hook and "
            "byte-exact comparison of the documents"]
 
 CLI_TARGET = os.path.join(vlib.WORK, "cli-target")
@@ -526,6 +532,11 @@ def hook_documents(rep, tier, seed):
         return
     rnd = random.Random(seed + 1900)
     values = [{}, {"a": 1}, {"": ""}] + [{"k": "x" * n} for n in range(0, 7)] + [{"s": "".join(cliplan.TEXT_ALPHABET)}]
+    # maps whose keys are extended-JSON markers (a server may name a rule so): they are maps in every format
+    values += [{"rules": {"$numberLong": "7"}}, {"rules": {"$symbol": "x"}}, {"name": "a", "rules": {"$oid": "0123456789abcdef01234567"}}, {"$symbol": "x"},
+               {"r": {"$numberInt": "5"}}, {"r": {"$numberDouble": "NaN"}}, {"r": {"$code": "x"}}, {"r": {"$undefined": True}}, {"r": {"$minKey": 1}},
+               {"r": {"$regularExpression": {"pattern": "a", "options": "i"}}}, {"r": {"$date": {"$numberLong": "0"}}}, {"r": {"$binary": {"base64": "", "subType": "00"}}},
+               {"r": {"$timestamp": {"t": 1, "i": 2}}}, {"r": {"$uuid": "00112233-4455-6677-8899-aabbccddeeff"}}]
     values += [{cliplan.rand_text(rnd, 5): hook_tree(rnd, 1) for _ in range(rnd.choice([1, 2, 3, 4]))} for _ in range(40 if tier == "quick" else 1500)]
     values += [hook_tree(rnd) for _ in range(20 if tier == "quick" else 400)]
     cases, meta = [], {}
@@ -581,6 +592,12 @@ def hook_documents(rep, tier, seed):
                         rep.oracle_failures.append((f"cli-bson-unfaithful:hook", "BSON differs from the value", desc, ""))
                 except Exception as e:
                     rep.oracle_failures.append((f"cli-malformed:{fmt}", f"{type(e).__name__}: {e}", desc, ""))
+                # the layout: the MODEL's BSON reader on the bytes gives the value, and the model's serialiser on the value (numbers
+                # in the Rust types serde_json hands over: u64 / i64 / f64) gives the bytes
+                cid3 = f"w{len(cases)}"
+                cases.append(f"{cid3} bson-dec {raw.hex() or '-'}"); meta[cid3] = ("bson-values", v, desc)
+                cid4 = f"w{len(cases)}"
+                cases.append(" ".join([cid4, "bson-enc"] + serde_json_tokens(v))); meta[cid4] = ("bson-bytes", raw, desc)
     model = vlib.run_model(cases)
     for c in cases:
         cid = c.split(" ", 1)[0]
@@ -589,12 +606,43 @@ def hook_documents(rep, tier, seed):
         rep.count("hook-compared")
         if kind == "eq":
             good = got == (want.hex() or "-")
+        elif kind == "bson-values":
+            try:
+                good = same_values(clibson.untok(got.split(" ")), want)
+            except (ValueError, StopIteration, UnicodeDecodeError, IndexError):
+                good = False
+            want = json.dumps(want, ensure_ascii=True).encode()
+        elif kind == "bson-bytes":
+            good = got == "OK " + (want.hex() or "-")
         elif kind == "dec":
             good = got == "OK " + (want.hex() or "-")
         else:
             good = got == (want.decode("latin-1") or "-")
         if not good:
             rep.divergences.append((c[:2000], got[:600], (want.hex() if kind != "text" else want.decode("latin-1"))[:600], "writer of the real binary differs from the model; " + desc[:400]))
+
+
+def serde_json_tokens(v):
+    """a JSON value as `serde_json::Value` hands it to a serialiser: integers ≥ 0 as u64, below 0 as i64, the others as f64"""
+    if v is None:
+        return ["N"]
+    if v is True or v is False:
+        return ["T" if v else "F"]
+    if isinstance(v, int):
+        return [f"Iu64:{v}" if v >= 0 else f"Ii64:{v}"]
+    if isinstance(v, float):
+        return ["D" + struct.pack(">d", v).hex()]
+    if isinstance(v, str):
+        return ["S" + v.encode().hex()]
+    if isinstance(v, list):
+        out = [f"A{len(v)}"]
+        for x in v:
+            out += serde_json_tokens(x)
+        return out
+    out = [f"O{len(v)}"]
+    for k, x in v.items():
+        out += [k.encode().hex() or "-"] + serde_json_tokens(x)
+    return out
 
 
 def has_nul_key(v):
@@ -618,7 +666,8 @@ def run(rep, tier, seed, replay=None):
     cliplan.run(rep, [l for l in netprops.corpus("C19") if cliplan.is_plan(l)])
     cliplan.run(rep, cliplan.gen(seed + 19, tier))
     # the mirrors the model's documents are made of, against the crates / std themselves
-    cliplan.run_codec(rep, [l for l in netprops.corpus("C19") if cliplan.is_codec(l)] + cliplan.codec_cases(seed + 19, tier), tag="c19codec")
+    cliplan.run_codec(rep, [l for l in netprops.corpus("C19") if cliplan.is_codec(l)] + cliplan.codec_cases(seed + 19, tier) + clibson.cases(seed + 19, tier),
+                      tag="c19codec")
     # the writers of the real binary on values of every shape
     hook_documents(rep, tier, seed)
     ok, log = build_cli()
@@ -757,6 +806,9 @@ def run(rep, tier, seed, replay=None):
                         doc = bson_decode(raw)
                         if not holds(doc, expected[mode]):
                             rep.oracle_failures.append((f"cli-bson-unfaithful:{mode}", f"BSON differs from the library's response", case_desc, ""))
+                        # the same through the MODEL's BSON reader (the decoder of the C19_bson theorems): what it reads holds the
+                        # library's values and equals the JSON document of the same invocation
+                        decode_with_model("bson-values", ["bson-dec", raw.hex() or "-"], (expected[mode], json_docs.get(mode)), case_desc)
                     elif fmt == "xml":
                         if mode in json_docs:
                             # the converter works on serde_json::to_value(result): number texts as Value prints them
@@ -796,6 +848,17 @@ def run(rep, tier, seed, replay=None):
                 rep.oracle_failures.append(("cli-json-unfaithful:model-reader", "the values the model's reader finds in the document differ from the library's response", desc, ""))
             rid = f"r{len(reprint)}"
             reprint.append((f"{rid} json-print {style} {got}", text, desc))
+        elif kind == "bson-values":
+            expected_value, json_doc = want
+            try:
+                value = clibson.untok(got.split(" "))
+            except (ValueError, StopIteration, UnicodeDecodeError, IndexError):
+                rep.divergences.append((dc[:2000], got[:300], "a document", "the model's BSON reader does not read the document the CLI printed; " + desc[:300]))
+                continue
+            if not holds(value, expected_value):
+                rep.oracle_failures.append(("cli-bson-unfaithful:model-reader", "the values the model's BSON reader finds in the document differ from the library's response", desc, ""))
+            if json_doc is not None and not same_values(value, json.loads(json_doc)):
+                rep.oracle_failures.append(("cli-bson-differs-from-json", "the BSON document (read by the model) and the JSON document of the same invocation hold different values", desc, ""))
         else:
             good = got == ((want.hex() or "-") if kind == "eq" else ("OK " + (want.hex() or "-")) if kind == "dec" else (want.decode("latin-1") or "-"))
             if not good:
@@ -869,4 +932,5 @@ def run(rep, tier, seed, replay=None):
     silent.close()
     rep.extra_cov["explanation"] = ("main from the flag values to the process outcome, the JSON documents with their reader, hex / base64 and the XML converter are Lean "
                                     "models with theorems (plan, every way out, no panic, the document decodes to the value, generic = common view); serde's derive "
-                                    "output, the serialiser crates' success, BSON's layout, the resolver and the process itself are exercised by running the real binary")
+                                    "output, the serialiser crates' success, the resolver and the process itself are exercised by running the real binary; BSON's layout is a "
+                                    "Lean model with theorems (reader inverts serialiser, failure cases, length fields) tied to the crate")
